@@ -63,6 +63,9 @@ def combineStory : List Act → List Act → List Act
 def isSpace (c : Char) : Bool :=
   c == ' ' || c == '\t' || c == '\n' || c == '\x0b' || c == '\x0c' || c == '\r'
 
+/-- a byte that is neither white space nor part of a multi-byte character (what scene shorthands, `.` and `+` are) -/
+def isPlain (c : Char) : Bool := !isSpace c && decide (c.toNat < 128)
+
 /-- number of bytes of the white-space code point a byte string starts with (0: none).  `unicode.IsSpace`: the six
 ASCII ones, U+0085, U+00A0, U+1680, U+2000–U+200A, U+2028, U+2029, U+202F, U+205F, U+3000 in UTF-8 -/
 def spaceLen : List Char → Nat
